@@ -24,7 +24,9 @@ def main(argv=None):
              'invalidated, a commit whose own checkpoint fails on an unpicklable object after an earlier savepoint); '
              'plus 60 (thorough: 2000) programs of the blob family (blobs in containers, open modes w/a/r+, '
              'savepoint, rollback, cacheMinimize between savepoint and commit, commit, abort, reads of a second '
-             'connection; oracle only); corpus first (the reproduced TmpStore.reset defect); non-trivial = at least 2 successful '
+             'connection, and a second WORKING connection of the process whose transaction overlaps and holds blob '
+             'data in savepoints too; oracle only); a scenario with equally long records of different objects '
+             'around a rollback; corpus first (the reproduced TmpStore.reset defect); non-trivial = at least 2 successful '
              'rollbacks, one of them to a savepoint older than a later savepoint; distinct by hash of the case',
         assumptions=['C12 promises nothing about the in-memory state of an object that was un-added; once such an '
                      'object whose state was lost (finding C11:stored-new-object-ghostified-on-abort) is added '
